@@ -1238,23 +1238,58 @@ func (c *Ctx) rulesC05x(a *coreAnchors) {
 // extracting a loop into such a helper does not change who issues the call.
 func (c *Ctx) effectiveHost(f *ssa.Function) *ssa.Function {
 	for d := 0; d < 4; d++ {
-		if f.Parent() != nil || f.Object() == nil || f.Object().Exported() {
+		if f.Parent() != nil {
 			return f
 		}
-		sites, vals := c.allCallersOf(f)
-		if len(sites) != 1 || len(vals) != 0 {
+		_, host := c.hostSites(f, true)
+		if host == nil {
 			return f
 		}
-		if _, isGo := sites[0].Instr.(*ssa.Go); isGo {
-			return f
-		}
-		f = topFunc(sites[0].Fn)
+		f = host
 	}
 	return f
 }
 
-// hostedBy: f is want, or a chain of single-caller private helpers leads from
-// want to f.
+// hostSites: the call sites of a private top-level function f from outside
+// itself (recursive calls do not count), provided f is never used as a value,
+// none of the sites starts a goroutine and all of them lie in one top-level
+// function (its closures included), which is returned as the host. With
+// allowDefer=false a deferred call is refused too. host is nil otherwise.
+func (c *Ctx) hostSites(f *ssa.Function, allowDefer bool) (out []callSite, host *ssa.Function) {
+	if f == nil || f.Parent() != nil || f.Object() == nil || f.Object().Exported() {
+		return nil, nil
+	}
+	sites, vals := c.allCallersOf(f)
+	if len(vals) != 0 {
+		return nil, nil
+	}
+	for _, s := range sites {
+		tf := topFunc(s.Fn)
+		if tf == f {
+			continue // recursion
+		}
+		switch s.Instr.(type) {
+		case *ssa.Go:
+			return nil, nil
+		case *ssa.Defer:
+			if !allowDefer {
+				return nil, nil
+			}
+		}
+		if host != nil && host != tf {
+			return nil, nil
+		}
+		host = tf
+		out = append(out, s)
+	}
+	if len(out) == 0 {
+		return nil, nil
+	}
+	return out, host
+}
+
+// hostedBy: f is want, or a chain of private helpers, each called (once or
+// several times) from one function only, leads from want to f.
 func (c *Ctx) hostedBy(f, want *ssa.Function) bool {
 	for d := 0; d < 4; d++ {
 		if f == want {
@@ -1264,17 +1299,11 @@ func (c *Ctx) hostedBy(f, want *ssa.Function) bool {
 			f = f.Parent()
 			continue
 		}
-		if f.Object() == nil || f.Object().Exported() {
+		_, host := c.hostSites(f, true)
+		if host == nil {
 			return false
 		}
-		sites, vals := c.allCallersOf(f)
-		if len(sites) != 1 || len(vals) != 0 {
-			return false
-		}
-		if _, isGo := sites[0].Instr.(*ssa.Go); isGo {
-			return false
-		}
-		f = sites[0].Fn
+		f = host
 	}
 	return f == want
 }
